@@ -550,6 +550,39 @@ theorem C01_concat_feed (a ws b : Bytes) (hc : Complete (modeAfter a) = true) (h
   rw [h]
   simp [feedAll, feedAllWith, List.foldl_append]
 
+/-- from a hand-over state the rest of the input is read as from a fresh lexer (token values) -/
+theorem ho_fresh (st : St) (h : HO st) (d : UInt8) (tl : Bytes) (p : Nat) (hd : d ≠ 62) :
+    tokVals (foldBytes st (d :: tl) p).2 = tokVals (foldBytes St.init (d :: tl) 0).2 := by
+  have key : ∀ s : St, s.mode = .main → tokVals (foldBytes s (d :: tl) p).2 = tokVals (foldBytes St.init (d :: tl) 0).2 := by
+    intro s hs
+    have := (foldBytes_rel p (d :: tl) s St.init 0 (rel_main p s St.init hs rfl)).1
+    rw [Nat.zero_add] at this
+    rw [this, tokVals_shift]
+  rcases h with hm | hw
+  · exact key st hm
+  · rw [fold_from_wclose st d tl p hw hd]
+    exact key _ rfl
+
+/-- Context independence: what follows a spelled value — after ANY white-space or delimiter byte `d` but
+    `>` — never changes the tokens of the value, and is itself tokenised as if it stood alone:
+    `rest` is an arbitrary byte string (the next object, `endobj`, binary data, damaged input).  Full
+    statement for the tokens: no restriction on the hex digit count, no size bound. -/
+theorem C01_context_indep (pad : List SepItem) (hpad : sepOK pad) (t : STree) (hwf : wf t)
+    (d : UInt8) (rest : Bytes) (hd : isDW d = true) (hd62 : d ≠ 62) :
+    tokVals (specLex (renderSep pad ++ bytesOf t ++ d :: rest)) = ser (valueOf t) ++ tokVals (specLex (d :: rest)) := by
+  have hu := LexUnit.append_free (LexUnit.sep pad hpad) (lex_tree t hwf)
+  obtain ⟨st', hHO, h⟩ := hu St.init d (rest ++ [10]) 0 (Or.inl rfl) (fun _ => hd)
+  unfold specLex
+  have e : (renderSep pad ++ bytesOf t ++ d :: rest) ++ [10] = (renderSep pad ++ bytesOf t) ++ d :: (rest ++ [10]) := by
+    simp
+  rw [e, h, ho_fresh st' hHO d (rest ++ [10]) _ hd62]
+  simp
+
+/-- Non-vacuity: `[1/A]` followed by NUL and an unbalanced, damaged tail. -/
+example : tokVals (specLex ([91, 49, 47, 65, 93] ++ 0 :: [60, 50, 62, 41, 40, 97]))
+    = [.kwd [91], .int 1, .lit [65], .kwd [93]] ++ tokVals (specLex (0 :: [60, 50, 62, 41, 40, 97])) := by
+  decide +kernel
+
 /-- Non-vacuity: a damaged input (odd hex string, unbalanced bracket) behind NUL / CR / a comment. -/
 example : modeAfter [0, 13, 37, 99, 10, 32] = .main ∧ specLex [0, 13, 37, 99, 10, 32] = [] ∧
     showState (objects (specLex ([0, 13, 37, 99, 10, 32] ++ [60, 50, 62, 93, 49])))
